@@ -4,7 +4,7 @@ from . import core
 from .core import Outcome, Infra, log
 
 PID = 'C13'
-INVS = ['C13_NoPanic', 'C13_ErrorReported', 'C13_NoWedge', 'C13_EndedOnce', 'C13_Multi']
+INVS = ['C13_NoPanic', 'C13_ErrorReported', 'C13_NoWedge', 'C13_EndedOnce', 'C13_Multi', 'C13_NoUnackedDurable']
 
 
 def trace_cfg(keys, vals, invs):
@@ -33,7 +33,7 @@ def run(tier):
     out = Outcome(PID, tier)
     thorough = tier == 'thorough'
     out.assumptions = ['the server is an in-process fake of postgres.PgInterface / pgx.Tx / pgx.Rows with transactional semantics and the aborted-transaction rule',
-                       'faults: the k-th primitive driver call of an operation fails (begin, exec, query, scan, commit); at most MaxFaults per sequence in the exhaustive part']
+                       'faults: the k-th primitive driver call of an operation fails (begin, exec, query, scan, commit, rollback); a failing statement either poisons the transaction (server-side error) or not (client-side error, "soft"); at most MaxFaults per sequence in the exhaustive part']
     w = core.spec_copy()
     d = core.scratch('verif-c13-')
     keys, vals = {'a', 'b'}, {1, 2}
@@ -57,7 +57,7 @@ def run(tier):
         def sink(o):
             if len(o) == g['MaxOps']:
                 seqs.append(o)
-                f.write(json.dumps([dict(op=x['op'], k=x['k'], v=x['v'], fl=x['fl']) for x in o], separators=(',', ':')) + '\n')
+                f.write(json.dumps([dict(op=x['op'], k=x['k'], v=x['v'], fl=x['fl'], soft=x['soft']) for x in o], separators=(',', ':')) + '\n')
         r = core.tlc(w, 'PgTxMC', 'pggen.cfg', workers=1, timeout=3000, mbt_sink=sink)
     core.require_tlc_ok(r, 'PgTxMC generation')
     out.add_tlc('PgTxMC behaviour generation', r)
@@ -83,7 +83,7 @@ def run(tier):
     rows = {}
     for line in open(tr2):
         ev = json.loads(line)
-        rows.setdefault(ev['seq'], []).append(dict(ev['op'], fl=ev['fl']))
+        rows.setdefault(ev['seq'], []).append(dict(ev['op'], fl=ev['fl'], soft=ev['soft']))
     judge(out, w, tr2, 'random history', lambda i: rows[i])
     out.cov['traces_validated_against_impl'] += len(rows)
     kinds = set()
